@@ -1,6 +1,6 @@
 """C05 - Multiplexed upstream replies reach exactly the exchange that asked (DESIGN.md section 4, C05)."""
 import json
-import vf
+import vf, xportfam
 
 
 def keyfn(ev, inv):
@@ -33,6 +33,8 @@ def run(ctx):
     t = ctx.path("fallback.ndjson")
     ctx.driver(drv, ["-mode", "fallback", "-n", 400 if ctx.quick else 4000, "-out", t], timeout=900)
     ctx.validate("FallbackTrace", t, keyfn, describe=describe, timeout=1800, require_events=800, only=["Inv_C05"])
+    # the transport as a whole (pool + connections) at the grain of its critical sections, replayed into the code
+    xportfam.pipe_part(ctx, drv, "C05")
     ctx.assumptions += [
         "schedules of the real code are sampled (32 concurrent exchanges, seeded server script); all interleavings are enumerated only in the bounded model",
         "the scripted server resolves a peer address to the client-side connection object owning that local address at that moment",
